@@ -305,6 +305,8 @@ def run_problem(case):
                 bm_ = bounds["move"]
                 bounds["move-again"] = fem.Boundary(f.fields[0], mask=np.isin(np.arange(f.fields[0].values.shape[0]), bm_.points), skip=tuple(bm_.skip), value=0.0)
                 bounds["move-y"] = fem.Boundary(f.fields[0], mask=np.isin(np.arange(f.fields[0].values.shape[0]), bm_.points), value=0.0)
+                # (move-vec: the same, stated as ONE vector of components that is broadcast over the points of the face)
+                bounds["move-vec"] = fem.Boundary(f.fields[0], mask=np.isin(np.arange(f.fields[0].values.shape[0]), bm_.points), value=np.zeros(f.fields[0].dim))
                 d0_, d1_ = fem.dof.partition(f, bounds)
                 lc = dict(lc, dof0=d0_, dof1=d1_)
             if case["mat"] == "mixed-ThreeField":
@@ -323,6 +325,9 @@ def run_problem(case):
                     vy_ = np.zeros((len(bounds["move-y"].points), f.fields[0].dim))
                     vy_[:, 0] = mv
                     bounds["move-y"].update(vy_)
+                    vv_ = np.zeros(f.fields[0].dim)
+                    vv_[0] = mv
+                    bounds["move-vec"].update(vv_)
                 dof0, dof1 = lc["dof0"], lc["dof1"]
                 ext0 = fem.dof.apply(f, bounds, dof0)
                 # the prescribed values as the boundary objects state them (independent of dof.apply): field offset + unknown
@@ -330,6 +335,10 @@ def run_problem(case):
                 want_full = np.full(int(offs_[-1]), np.nan)
                 for b_ in bounds.values():
                     k_ = [i_ for i_, fl in enumerate(f.fields) if fl is b_.field][0]
+                    if np.ndim(b_.value) == 1 and len(b_.value) == b_.field.dim and len(b_.dof) == len(b_.points) * b_.field.dim and len(b_.points) > 1:
+                        # one vector of components for every point of the boundary (no skipped axis): point-wise order
+                        want_full[offs_[k_] + np.asarray(b_.dof, dtype=int)] = np.tile(np.asarray(b_.value, dtype=float), len(b_.points))
+                        continue
                     want_full[offs_[k_] + np.asarray(b_.dof, dtype=int)] = np.broadcast_to(np.asarray(b_.value, dtype=float).ravel() if np.ndim(b_.value) else float(b_.value), (len(b_.dof),)) if np.ndim(b_.value) <= 1 else np.asarray(b_.value, dtype=float).ravel()
                 pres_ = want_full[dof0]
                 if np.isfinite(pres_).any() and np.nanmax(np.abs(pres_ - ext0)) > 0:
